@@ -6,7 +6,7 @@
 (* (one transition per scanner); the Tier-A shape predicates of `Tokens`   *)
 (* must accept every result and the two shapes must agree.                 *)
 (***************************************************************************)
-EXTENDS Tokenizers, Tokens, TLC
+EXTENDS Tokenizers, Tokens, TLC, Json
 
 CONSTANT MaxChars
 VARIABLES t, k
@@ -35,4 +35,7 @@ ShapeOk == k >= 1 => LET kind == Kinds[k] IN
               /\ TokensViol(RecOf(kind, RangesStr(kind))) = {}
               /\ TokensViol(RecOf(kind, RangesBytes(kind))) = {}
               /\ RangesStr(kind) = RangesBytes(kind)
+DumpInv == k >= 1 =>
+   PrintT(<<"REPLAY", ToJson([kind |-> "tokens", tok |-> Kinds[k], input |-> Bytes(t),
+                              expected |-> Slices(t, RangesStr(Kinds[k]))])>>)
 =============================================================================
